@@ -29,6 +29,7 @@ import (
 const (
 	txnHost = "verif.test"
 	txnURL  = "verif.test/x"
+	txnURLy = "verif.test/y"
 	realPT  = "@real" // processor type of system-flow processors (real QuotaProcessorInc/Dec, not probes)
 )
 
@@ -53,6 +54,7 @@ type flowDef struct {
 	procs [][2]string
 	req   []connDef
 	res   []connDef
+	url string // "" / "x": verif.test/x, "y": verif.test/y, "wild": verif.test/*
 	// filter constraints besides the URL
 	methods []string
 	headers [][2]string
@@ -62,17 +64,65 @@ type flowDef struct {
 
 // attributes of a transaction the flow filters look at
 type txnAttrs struct {
+	url                string // "x" | "y"
 	method, respMethod string
 	headers, query     [][2]string
 	status             int
 }
 
-func defaultAttrs() txnAttrs { return txnAttrs{method: "GET", respMethod: "GET", status: 200} }
+func defaultAttrs() txnAttrs { return txnAttrs{url: "x", method: "GET", respMethod: "GET", status: 200} }
+
+func (a txnAttrs) fullURL() string {
+	if a.url == "y" {
+		return txnURLy
+	}
+	return txnURL
+}
+
+func (f *flowDef) fullURL() string {
+	switch f.url {
+	case "y":
+		return txnURLy
+	case "wild":
+		return txnHost + "/*"
+	}
+	return txnURL
+}
 
 type quotaDef struct {
 	id   string
 	kind string // fixed|concurrent
 	wild bool   // filter url verif.test/* instead of verif.test/x
+	methods []string // `method:` list of the quota filter
+}
+
+func (q quotaDef) fkey() string {
+	return fmt.Sprintf("%v|%s", q.wild, strings.Join(q.methods, ","))
+}
+
+// expectedSys: names of the system start / end flows in the model's canonical order: one pair per filter group
+// (named after the group's first quota), wildcard-URL groups first, groups in quota-file order.
+func expectedSys(c *caseCfg) (start, end []string) {
+	for _, wild := range []bool{true, false} {
+		seen := map[string]bool{}
+		for _, q := range c.quotas {
+			if q.wild != wild || seen[q.fkey()] {
+				continue
+			}
+			seen[q.fkey()] = true
+			start = append(start, "SystemFlow_"+q.id+"_SYSTEM_FLOW_START")
+			conc := false
+			for _, r := range c.quotas {
+				if r.fkey() == q.fkey() && r.kind == "concurrent" {
+					conc = true
+				}
+			}
+			if conc {
+				end = append(end, "SystemFlow_"+q.id+"_SYSTEM_FLOW_END")
+			}
+		}
+	}
+	return
 }
 
 func (q quotaDef) url() string {
@@ -110,6 +160,10 @@ type txnState struct {
 	oracle map[string]outVal // "<flow>/<key>/<dir>"
 	events []string
 	ctxOf  map[publictypes.LunarContextI]string
+	// parking: the first probe this transaction executes signals `parked` and waits for `release`
+	parked  chan struct{}
+	release chan struct{}
+	didPark bool
 }
 
 // obsStream wraps the real APIStream: it logs every SetContext (= executeFlow entered a flow) and
@@ -150,6 +204,11 @@ func (p *probe) Execute(flowName string, apiStream publictypes.APIStreamI) (stre
 	o, ok := apiStream.(*obsStream)
 	if !ok {
 		return streamtypes.ProcessorIO{}, fmt.Errorf("probe: unexpected stream type %T", apiStream)
+	}
+	if o.st.parked != nil && !o.st.didPark {
+		o.st.didPark = true
+		close(o.st.parked)
+		<-o.st.release
 	}
 	dir := dirName(apiStream.GetType())
 	v, found := o.st.oracle[flowName+"/"+p.key+"/"+dir]
@@ -232,7 +291,7 @@ func endpYAML(e endp, indent string) string {
 
 func flowYAML(f *flowDef) string {
 	var b strings.Builder
-	fmt.Fprintf(&b, "name: %s\nfilter:\n  url: %s\n", f.name, txnURL)
+	fmt.Fprintf(&b, "name: %s\nfilter:\n  url: %s\n", f.name, f.fullURL())
 	if len(f.methods) > 0 {
 		fmt.Fprintf(&b, "  method: [%s]\n", strings.Join(f.methods, ", "))
 	}
@@ -288,7 +347,11 @@ func quotasYAML(qs []quotaDef) string {
 		if q.kind == "concurrent" {
 			strat = "      concurrent:\n        max_request_count: 1000000\n"
 		}
-		fmt.Fprintf(&b, "  - id: %s\n    filter:\n      url: %s\n    strategy:\n%s", q.id, q.url(), strat)
+		meth := ""
+		if len(q.methods) > 0 {
+			meth = fmt.Sprintf("      method: [%s]\n", strings.Join(q.methods, ", "))
+		}
+		fmt.Fprintf(&b, "  - id: %s\n    filter:\n      url: %s\n%s    strategy:\n%s", q.id, q.url(), meth, strat)
 	}
 	return b.String()
 }
@@ -304,6 +367,7 @@ type engine struct {
 	ctxOf   map[publictypes.LunarContextI]string
 	byName  map[string]internaltypes.FlowI
 	loadErr error
+	userNodes [][]string // names of the user flows of every filter node, in the node's order
 }
 
 func (e *engine) close() {
@@ -325,23 +389,45 @@ func privField(v reflect.Value, name string) reflect.Value {
 
 // allFlowsOf lists, in engine order, every flow registered in the filter tree on the nodes the test URL
 // traverses — whatever the flows' filters say (FilterTree.GetFlow would apply them).
-func allFlowsOf(s *streams.Stream) (start, user, end []internaltypes.FlowI) {
+func allFlowsOf(s *streams.Stream) (start, user, end []internaltypes.FlowI, userNodes [][]string) {
 	ft := reflect.ValueOf(filterTreeOf(s)).Elem() // streamfilter.FilterTree
 	tree := privField(ft, "tree")                 // *urltree.URLTree[FilterNode]
-	res := tree.MethodByName("Traversal").Call([]reflect.Value{reflect.ValueOf(txnURL)})[0]
-	nodes := res.FieldByName("Value") // []*FilterNode
-	for i := 0; i < nodes.Len(); i++ {
-		n := nodes.Index(i)
-		for n.Kind() == reflect.Ptr {
-			n = n.Elem()
-		}
-		for _, part := range []struct {
-			name string
-			dst  *[]internaltypes.FlowI
-		}{{"systemFlowStart", &start}, {"userFlows", &user}, {"systemFlowEnd", &end}} {
-			l := privField(n, part.name)
-			for j := 0; j < l.Len(); j++ {
-				*part.dst = append(*part.dst, l.Index(j).Interface().(internaltypes.FlowI))
+	seen := map[string]bool{}
+	for _, u := range []string{txnURL, txnURLy} {
+		res := tree.MethodByName("Traversal").Call([]reflect.Value{reflect.ValueOf(u)})[0]
+		nodes := res.FieldByName("Value") // []*FilterNode
+		for i := 0; i < nodes.Len(); i++ {
+			n := nodes.Index(i)
+			for n.Kind() == reflect.Ptr {
+				n = n.Elem()
+			}
+			// the wildcard node is on the path of both URLs: recognise it by its flows (flow names are unique)
+			sig := ""
+			for _, pn := range []string{"systemFlowStart", "userFlows", "systemFlowEnd"} {
+				l := privField(n, pn)
+				for j := 0; j < l.Len(); j++ {
+					sig += l.Index(j).Interface().(internaltypes.FlowI).GetName() + "|"
+				}
+				sig += ";"
+			}
+			if seen[sig] {
+				continue
+			}
+			seen[sig] = true
+			for _, part := range []struct {
+				name string
+				dst  *[]internaltypes.FlowI
+			}{{"systemFlowStart", &start}, {"userFlows", &user}, {"systemFlowEnd", &end}} {
+				l := privField(n, part.name)
+				var nm []string
+				for j := 0; j < l.Len(); j++ {
+					f := l.Index(j).Interface().(internaltypes.FlowI)
+					*part.dst = append(*part.dst, f)
+					nm = append(nm, f.GetName())
+				}
+				if part.name == "userFlows" {
+					userNodes = append(userNodes, nm)
+				}
 			}
 		}
 	}
@@ -358,14 +444,14 @@ func newReqStream(id string, a txnAttrs) publictypes.APIStreamI {
 		q = append(q, kv[0]+"="+kv[1])
 	}
 	return streamtypes.NewRequestAPIStream(lunar_messages.OnRequest{
-		ID: id, SequenceID: id, Method: a.method, Scheme: "https", URL: txnURL, Path: "/x",
+		ID: id, SequenceID: id, Method: a.method, Scheme: "https", URL: a.fullURL(), Path: "/" + a.url,
 		Query: strings.Join(q, "&"), Headers: h,
 	}, lunar_context.NewMemoryState[[]byte]())
 }
 
 func newResStream(id string, a txnAttrs) publictypes.APIStreamI {
 	return streamtypes.NewResponseAPIStream(lunar_messages.OnResponse{
-		ID: id, SequenceID: id, Method: a.respMethod, URL: txnURL, Status: a.status,
+		ID: id, SequenceID: id, Method: a.respMethod, URL: a.fullURL(), Status: a.status,
 		Headers: map[string]string{},
 	}, lunar_context.NewMemoryState[[]byte]())
 }
@@ -433,7 +519,7 @@ func buildEngine(c *caseCfg, fileOrder []string) *engine {
 		return e
 	}
 	e.s = s
-	e.start, e.user, e.end = allFlowsOf(s)
+	e.start, e.user, e.end, e.userNodes = allFlowsOf(s)
 	for _, l := range [][]internaltypes.FlowI{e.start, e.user, e.end} {
 		for _, f := range l {
 			e.ctxOf[f.GetExecutionContext()] = f.GetName()
@@ -636,8 +722,40 @@ func classifyLoadErr(err error) string {
 }
 
 // runTxn executes one transaction and returns (result class, events, early-response action bodies).
+// runPair overlaps two request transactions on the one engine: the first is parked inside the first probe it
+// executes, the second is served completely, then the first is released.
+func (e *engine) runPair(or1, or2 map[string]outVal, a1, a2 txnAttrs) (r1, r2 [3]interface{}) {
+	st1 := &txnState{oracle: or1, ctxOf: e.ctxOf, parked: make(chan struct{}), release: make(chan struct{})}
+	done := make(chan [3]interface{}, 1)
+	go func() {
+		defer func() {
+			if r := recover(); r != nil {
+				done <- [3]interface{}{"panic", []string{proto.Enc(fmt.Sprint(r))}, []string(nil)}
+			}
+		}()
+		res, evs, acts := e.runTxnSt("req", st1, a1)
+		done <- [3]interface{}{res, evs, acts}
+	}()
+	finished := false
+	select {
+	case <-st1.parked:
+	case r1 = <-done:
+		finished = true
+	}
+	res, evs, acts := e.runTxn("req", or2, a2)
+	r2 = [3]interface{}{res, evs, acts}
+	if !finished {
+		close(st1.release)
+		r1 = <-done
+	}
+	return
+}
+
 func (e *engine) runTxn(dir string, oracle map[string]outVal, a txnAttrs) (string, []string, []string) {
-	st := &txnState{oracle: oracle, ctxOf: e.ctxOf}
+	return e.runTxnSt(dir, &txnState{oracle: oracle, ctxOf: e.ctxOf}, a)
+}
+
+func (e *engine) runTxnSt(dir string, st *txnState, a txnAttrs) (string, []string, []string) {
 	var inner publictypes.APIStreamI
 	if dir == "req" {
 		inner = newReqStream("t1", a)
